@@ -63,9 +63,20 @@ def _init(cid, seed):
         _mod.worker_init()
 
 
+_HIST = []  # groups this worker process ran before (a failure may depend on what the process did earlier)
+WORKER_HISTORY = {}
+
+
 def _work(item):
     gi, cases = item
     t0 = time.time()
+    prior = list(_HIST)
+    _HIST.append(gi)
+    r = _work1(gi, cases, t0)
+    return r[0], r[1], r[2], (r[3], prior)
+
+
+def _work1(gi, cases, t0):
     try:
         res = _mod.run_group(cases, _seed)
         if len(res) != len(cases):
@@ -220,7 +231,8 @@ def run_check(cid: str, tier: str) -> int:
         futs = {ex.submit(_work, it): it[0] for it in items}
         for fu in as_completed(futs):
             try:
-                gi, res, err, wall = fu.result()
+                gi, res, err, (wall, prior) = fu.result()
+                WORKER_HISTORY[gi] = prior
             except BrokenProcessPool:
                 broken = True
                 break
@@ -336,6 +348,18 @@ def _finish(cid, tier, seed, mod, t0, groups, results, meta, capped):
                         json.dump(rp, f, indent=1, default=str)
                     rc2 = confirm_in_fresh_process(path)
                     if rc2 == 1:
+                        new_violations.append((sig + "/history-dependent", path, r, len(lst)))
+                        confirmed = True
+                        break
+                # still not reproducible: replay everything the worker process had run before this case
+                if gi is not None and WORKER_HISTORY.get(gi):
+                    with open(path) as f:
+                        rp = json.load(f)
+                    rp["prefix_cases"] = [c for g in WORKER_HISTORY[gi] for c in groups[g]] + groups[gi][:ci]
+                    with open(path, "w") as f:
+                        json.dump(rp, f, indent=1, default=str)
+                    rc3 = confirm_in_fresh_process(path)
+                    if rc3 == 1:
                         new_violations.append((sig + "/history-dependent", path, r, len(lst)))
                         confirmed = True
                         break
